@@ -16,6 +16,7 @@ func (e *integEngine) checkC14(x *integExpect) {
 		// which task executions used this context
 		var users []runRec
 		for _, rr := range e.runGID {
+			rr.Task = e.taskOfRun(rr.Task)
 			if t := e.w.Task(rr.Task); t != nil && t.Context == cs.Name {
 				users = append(users, rr)
 			}
@@ -92,6 +93,34 @@ func (e *integEngine) checkC14(x *integExpect) {
 				e.checkHookPattern(cs, rr)
 			}
 		}
+		// (d') under a cancellation the exact pattern is not demanded, but the pairing is: an
+		// execution whose before hook ran gets its after hook (the hooks do not run under the
+		// cancelled context)
+		if !upFailed && cancelled && e.finished && cs.NBefore > 0 && cs.NAfter > 0 {
+			for _, rr := range users {
+				nb, na, done := 0, 0, true
+				for _, r := range e.execs {
+					if r.Info.GID != rr.GID || r.StartSeq < rr.Seq || r.Info.Owner != owner {
+						continue
+					}
+					switch r.Info.Block {
+					case "before":
+						nb++
+						if r.EndSeq < 0 || r.Result != "0" {
+							done = false
+						}
+					case "after":
+						na++
+					}
+				}
+				if nb == cs.NBefore && done && na == 0 {
+					c.Violate("C14", "after-missing-after-cancel", "task %s in context %s: the context's before hook ran for this execution but its after hook never did (the run was cancelled meanwhile)", rr.Task, cs.Name)
+				}
+				if nb > 0 {
+					c.Count("c14_hook_pairs_checked_under_cancel")
+				}
+			}
+		}
 		// (e) down: exactly once each, after everything else, only for used contexts, at Finish
 		downCount := map[int]int{}
 		for _, r := range all {
@@ -128,6 +157,17 @@ func (e *integEngine) checkC14(x *integExpect) {
 	}
 }
 
+// taskOfRun: the task behind the subject of a run-enter event ("task" or, for a task shared by
+// several stages, "task@stage").
+func (e *integEngine) taskOfRun(subject string) string {
+	if e.w.Task(subject) == nil {
+		if i := strings.LastIndex(subject, "@"); i > 0 && e.w.Task(subject[:i]) != nil {
+			return subject[:i]
+		}
+	}
+	return subject
+}
+
 func (e *integEngine) finishCalls() int {
 	if e.w.FinishTwice {
 		return 2
@@ -137,7 +177,7 @@ func (e *integEngine) finishCalls() int {
 
 func (e *integEngine) taskWasRun(name string) bool {
 	for _, rr := range e.runGID {
-		if rr.Task == name {
+		if e.taskOfRun(rr.Task) == name {
 			return true
 		}
 	}
